@@ -59,7 +59,10 @@ def strategy():
                'rejects': draw(st.sampled_from([True, True, False])), 'per_cell': draw(st.sampled_from([False, False, True])),
                'maxHandles': draw(st.integers(1, 6)), 'pruneEvery': draw(st.integers(1, 20)),
                'maxReadPairs': draw(st.sampled_from([None, None, None, 1, 2, n, n + 2, max(1, n // 2)])),
-               'gz': draw(st.booleans()), 'lib': draw(st.sampled_from(['libA', 'my-lib_2', 'L' * 40]))}
+               'gz': draw(st.booleans()), 'lib': draw(st.sampled_from(['libA', 'my-lib_2', 'L' * 40])),
+               'rerun': draw(st.sampled_from([False, False, False, True])), 'sep': draw(st.sampled_from(['/', '/', '//', '/./'])),
+               'lanes': draw(st.integers(1, 2)), 'chunks': draw(st.integers(1, 3)), 'file_list': draw(st.booleans()),
+               'file_order': draw(st.lists(st.integers(0, 5), min_size=0, max_size=6)), 'o_slash': draw(st.booleans())}
         if name == 'ILLU':
             cfg['per_cell'] = False
         return {'cfg': cfg, 'pairs': pairs}
@@ -167,14 +170,35 @@ def run_cli(case, lib, d, with_rejects):
     indir = os.path.join(d, 'in_%s' % ('rej' if with_rejects else 'norej'))
     os.makedirs(indir)
     files = []
+    lanes, chunks = cfg.get('lanes', 1), cfg.get('chunks', 1)
+    if lanes * chunks > len(lib):
+        lanes, chunks = 1, 1
+    if lanes * chunks == 1:
+        blocks = [('mylib_R%d.fastq.gz', lib)]
+    else:
+        # the lane is split into chunk files; the library is cut into contiguous blocks in (lane, chunk) order
+        k, per = lanes * chunks, len(lib) // (lanes * chunks)
+        blocks = []
+        for b in range(k):
+            part = lib[b * per:(b + 1) * per] if b < k - 1 else lib[b * per:]
+            blocks.append(('mylib_L%03d_R%%d_%03d.fastq.gz' % (b // chunks + 1, b % chunks + 1), part))
     for m in range(nm):
-        path = os.path.join(indir, 'mylib_R%d.fastq.gz' % (m + 1))
-        with gzip.open(path, 'wt') as f:
-            for pair in lib:
-                h, sq, q = pair[m]
-                f.write('%s\n%s\n+\n%s\n' % (h, sq, q))
-        files.append(path)
-    outroot = os.path.join(d, 'cli_%s' % ('rej' if with_rejects else 'norej'))
+        for pat, part in blocks:
+            path = os.path.join(indir, pat % (m + 1))
+            with gzip.open(path, 'wt') as f:
+                for pair in part:
+                    h, sq, q = pair[m]
+                    f.write('%s\n%s\n+\n%s\n' % (h, sq, q))
+            files.append(path)
+    # the order in which the files are named on the command line (or in a file list) is drawn
+    keys = cfg.get('file_order') or []
+    files = [f for _, _, f in sorted((keys[i % len(keys)] if keys else 0, i, f) for i, f in enumerate(files))]
+    if cfg.get('file_list'):
+        lst = os.path.join(indir, 'files.txt')
+        with open(lst, 'w') as f:
+            f.write('\n'.join(files) + '\n')
+        files = [lst]
+    outroot = os.path.join(d, 'cli_%s' % ('rej' if with_rejects else 'norej')) + ('/' if cfg.get('o_slash') else '')
     cmd = [sys.executable, os.path.join(os.path.dirname(md.__file__), 'demux.py')] + files + [
         '--y', '-use', cfg['strategy'], '-o', outroot, '-barcodeDir', ds.barcode_dir(scratch_dir()), '-hd', str(cfg['hd'])]
     if not with_rejects:
@@ -214,10 +238,19 @@ def run_loader(case, lib, d, with_rejects):
         files.append(path)
     outdir = os.path.join(d, 'out_%s' % ('rej' if with_rejects else 'norej'))
     os.makedirs(outdir)
-    target = FastqHandle(os.path.join(outdir, 'demultiplexed'), pairedEnd=(nm == 2), single_cell=cfg['per_cell'], maxHandles=cfg['maxHandles'])
+    if cfg.get('rerun'):
+        # the same library was demultiplexed into this directory before: the second run replaces the first
+        first = dict(case, cfg=dict(cfg, rerun=False))
+        os.makedirs(d + '_first', exist_ok=True)
+        prev = run_loader(first, lib, d + '_first', with_rejects)
+        shutil.rmtree(outdir)
+        shutil.move(prev['outdir'], outdir)
+        shutil.rmtree(d + '_first', ignore_errors=True)
+    pre = outdir + cfg.get('sep', '/')        # the command line builds '<out>/<library>/demultiplexed' with an f-string: '//' and '/./' occur
+    target = FastqHandle(pre + 'demultiplexed', pairedEnd=(nm == 2), single_cell=cfg['per_cell'], maxHandles=cfg['maxHandles'])
     if cfg['per_cell']:
         target.handles.pruneEvery = cfg['pruneEvery']
-    rej = FastqHandle(os.path.join(outdir, 'rejects'), pairedEnd=(nm == 2)) if with_rejects else None
+    rej = FastqHandle(pre + 'rejects', pairedEnd=(nm == 2)) if with_rejects else None
     logp = os.path.join(outdir, 'demultiplexing.log')
     err = None
     ret = None
@@ -345,7 +378,8 @@ def eval_case(case):
             if ny != len(dem[0]):
                 out.bad('%s:strategyYields-differs-from-written-records' % mode, '%s: counter %d, %d records in the demultiplexed output' % (name, ny, len(dem[0])))
         if run['ret'] is None and cfg.get('via_cli'):
-            if 'processed %d read pairs' % consumed not in run['log']:
+            done = [ln for ln in run['log'].split('\n') if ln.startswith('done, processed:')]
+            if not done or done[-1].split('\t')[1].split()[0] != str(consumed):
                 out.bad('%s:log-processed-count' % mode, run['log'][-300:])
         if run['ret'] is not None:
             if 'processed %d read pairs' % consumed not in run['log']:
@@ -385,4 +419,4 @@ def cli_strategy():
 def parts(tier):
     t = tier == 'thorough'
     return [Part('libraries', eval_case, strategy=strategy, examples=40000 if t else 1100),
-            Part('cli', eval_case, strategy=cli_strategy, examples=800 if t else 16)]
+            Part('cli', eval_case, strategy=cli_strategy, examples=1600 if t else 64)]
